@@ -81,6 +81,7 @@ impl StdioInterpreter {
         let messages = analyzer.take_messages();
         let lines = analyzer.take_source_file_lines();
         self.interpreter = analyzer.into_interpreter();
+        self.args.configure_interpreter(&mut self.interpreter);
         if self.args.skip_check {
             return Ok(());
         }
